@@ -12,7 +12,6 @@ namespace CtEllipticcurve.Tie
 open Gen.Rest
 
 theorem skel_mod : skel_mod_ellipticcurve = Rest.Skel.mod_ellipticcurve := rfl
-theorem skel_Point_str_ : skel_ellipticcurve_Point_str_ = Rest.Skel.ellipticcurve_Point_str_ := rfl
 theorem skel_Point_x : skel_ellipticcurve_Point_x = Rest.Skel.ellipticcurve_Point_x := rfl
 theorem skel_Point_y : skel_ellipticcurve_Point_y = Rest.Skel.ellipticcurve_Point_y := rfl
 theorem skel_Point_curve : skel_ellipticcurve_Point_curve = Rest.Skel.ellipticcurve_Point_curve := rfl
